@@ -15,6 +15,6 @@ import vcheck
 vcheck.coq_prepare()
 PY
 python3 lib/setup_gen.py
-(cd coq && timeout 3000 make -j16 2>&1 | tail -n 40)
+(cd coq && timeout 3000 make -k -j16 2>&1 | tail -n 40) || true
 python3 lib/setup_build.py
 echo "setup done"
